@@ -429,6 +429,8 @@ def auto_discharge(prog, fn, v, op, a, b):
         for (g, x, y) in guards:
             if g == 'Lt' and same_val(x, sa):
                 return 'x + 1 with x < bound on every path'
+            if g == 'Le' and same_val(x, sa) and y is not None and strip(y).kind == 'const' and isinstance(strip(y).args[0], int) and strip(y).args[0] < {'u8': 2 ** 8 - 1, 'u16': 2 ** 16 - 1, 'u32': 2 ** 32 - 1, 'i32': 2 ** 31 - 1, 'i64': 2 ** 63 - 1, 'isize': 2 ** 63 - 1}.get((strip(y).ty or '').strip(), 2 ** 64 - 1):
+                return 'x + 1 with x <= a constant below the type maximum on every path'
         for (g, x, y) in guards:
             # (x as usize) + 1 < len  dominates  x + 1
             sx = strip(x)
@@ -514,6 +516,13 @@ def auto_discharge(prog, fn, v, op, a, b):
                     return 'shift by the number of trailing/leading zeros of a value that is not 0 on this path: below its bit width'
                 if y is not None and g == 'Ne' and strip(x).is_const(0) and same_val(y, arg):
                     return 'shift by the number of trailing/leading zeros of a value that is not 0 on this path: below its bit width'
+    if op == 'Sub' and sb.is_const(1) and sa.kind == 'load' and fn.self_adt in prog.tree_adts and prog.self_field(sa) and len(prog.self_field(sa)) == 1:
+        # an entry counter stepped down in the removal: it counts the entries (ENTITY's counter discipline), and the entry that
+        # is being removed is one of them
+        from rules.entity import counter_discipline
+        from rules.stale import removal_fns
+        if fn.path in removal_fns(prog) and counter_discipline(prog, fn.self_adt, prog.self_field(sa)[0]) is None:
+            return 'entry counter (zeroed by constructors and clear, +1 per slot taken for an entry, -1 per removal) stepped down in the removal of an existing entry'
     if op == 'Sub':
         why = pool_count(prog, fn, sa, sb)
         if why:
